@@ -655,6 +655,173 @@ func execBuild(t []string, o *vu.Out) string {
 	return res
 }
 
+// builderCall runs the typed Builder method for one resource.
+func builderCall(b *dm.Builder, r *dm.Resource) error {
+	h := r.Header
+	switch x := r.Body.(type) {
+	case *dm.AResource:
+		return b.AResource(h, *x)
+	case *dm.AAAAResource:
+		return b.AAAAResource(h, *x)
+	case *dm.NSResource:
+		return b.NSResource(h, *x)
+	case *dm.CNAMEResource:
+		return b.CNAMEResource(h, *x)
+	case *dm.PTRResource:
+		return b.PTRResource(h, *x)
+	case *dm.MXResource:
+		return b.MXResource(h, *x)
+	case *dm.TXTResource:
+		return b.TXTResource(h, *x)
+	case *dm.SOAResource:
+		return b.SOAResource(h, *x)
+	case *dm.SRVResource:
+		return b.SRVResource(h, *x)
+	case *dm.OPTResource:
+		return b.OPTResource(h, *x)
+	case *dm.SVCBResource:
+		return b.SVCBResource(h, *x)
+	case *dm.HTTPSResource:
+		return b.HTTPSResource(h, *x)
+	case *dm.UnknownResource:
+		return b.UnknownResource(h, *x)
+	}
+	panic("harness: nil body")
+}
+
+// execBSeq: bseq <pre> <id> <flags> <opcode> <rcode> <k> op*, op = C | S2..S5 | Q <question> | R <resource> | F.
+// One result token per call: "." | <ErrTag> | x<bytes returned by Finish>.
+func execBSeq(t []string, o *vu.Out) string {
+	if len(t) < 6 {
+		return "bad-op"
+	}
+	pre, err := strconv.Atoi(t[0])
+	if err != nil || pre < 0 || pre > 1<<16 {
+		return "bad-op"
+	}
+	hm, ok := parseMessage(append(append([]string{}, t[1:5]...), "0", "0", "0", "0"))
+	if !ok {
+		return "bad-op"
+	}
+	s := &toks{t: t[5:]}
+	k := s.count()
+	type call struct {
+		kind string
+		q    dm.Question
+		r    dm.Resource
+	}
+	var calls []call
+	for i := 0; i < k && !s.bad; i++ {
+		c := call{kind: s.next()}
+		switch c.kind {
+		case "C", "F", "S2", "S3", "S4", "S5":
+		case "Q":
+			c.q.Name = s.name()
+			c.q.Type = dm.Type(s.nat(65535))
+			c.q.Class = dm.Class(s.nat(65535))
+		case "R":
+			c.r = s.resource()
+		default:
+			s.bad = true
+		}
+		calls = append(calls, c)
+	}
+	if s.bad || s.i != len(s.t) {
+		return "bad-op"
+	}
+	// reference message: what the successful calls describe (for the oracle)
+	ref := &dm.Message{Header: hm.Header}
+	compress, compressAtStart, clean, anyRecord := false, true, true, false
+	var last []byte
+	res := vu.Catch(func() string {
+		buf := bytes.Repeat([]byte{0xAA}, pre)
+		b := dm.NewBuilder(buf, hm.Header)
+		sec := 1
+		out := []string{"ok"}
+		for _, c := range calls {
+			var err error
+			switch c.kind {
+			case "C":
+				b.EnableCompression()
+				if anyRecord {
+					compressAtStart = false
+				}
+				compress = true
+			case "S2":
+				err = b.StartQuestions()
+			case "S3":
+				err = b.StartAnswers()
+			case "S4":
+				err = b.StartAuthorities()
+			case "S5":
+				err = b.StartAdditionals()
+			case "Q":
+				if err = b.Question(c.q); err == nil {
+					ref.Questions = append(ref.Questions, c.q)
+					anyRecord = true
+				}
+			case "R":
+				if err = builderCall(&b, &c.r); err == nil {
+					anyRecord = true
+					switch sec {
+					case 3:
+						ref.Answers = append(ref.Answers, c.r)
+					case 4:
+						ref.Authorities = append(ref.Authorities, c.r)
+					case 5:
+						ref.Additionals = append(ref.Additionals, c.r)
+					}
+				}
+			case "F":
+				var m []byte
+				if m, err = b.Finish(); err == nil {
+					if !bytes.Equal(m[:pre], buf[:pre]) {
+						panic("harness: builder changed the prefix")
+					}
+					last = append([]byte{}, m[pre:]...)
+					out = append(out, vu.Hex(last))
+					sec = 6
+					continue
+				}
+			}
+			if err == nil && len(c.kind) == 2 && c.kind[0] == 'S' {
+				sec = int(c.kind[1] - '0')
+			}
+			if err != nil {
+				if c.kind == "Q" || c.kind == "R" {
+					if t := tag(err); t != "NotStarted" && t != "SectionDone" {
+						clean = false // a packing call failed: the compression map may be stale from here on
+					}
+				}
+				out = append(out, tag(err))
+			} else {
+				out = append(out, ".")
+			}
+		}
+		return strings.Join(out, " ")
+	})
+	if res == "panic" {
+		o.Fail("panic", "Builder call sequence panicked")
+		return res
+	}
+	// C36 on the implementation: the bytes of an accepted call sequence are the bytes of
+	// Message.Pack of the message it describes (compression enabled before the first record),
+	// and they unpack to that message with or without compression.
+	if last != nil && clean && wellFormed(ref) {
+		o.Stat("oracle:builder-clean-finish")
+		refPacked, perr := ref.Pack() // also fills in Type/Length of ref
+		if perr != nil {
+			o.Fail("", fmt.Sprintf("Builder accepted what Pack rejects: %v", perr))
+		} else {
+			if compress && compressAtStart && !bytes.Equal(refPacked, last) {
+				o.Fail("", fmt.Sprintf("Builder bytes %x differ from Message.Pack bytes %x", last, refPacked))
+			}
+			oracleRoundTrip(o, "Builder call sequence", true, ref, nil, last, compress && compressAtStart)
+		}
+	}
+	return res
+}
+
 // parserWalk decodes msg with the record-level Parser API (XHeader + typed
 // XResource), the way a streaming user would.
 func parserWalk(msg []byte) (*dm.Message, error) {
@@ -1129,6 +1296,8 @@ func exec(ops []string, o *vu.Out) {
 			res = execRT(t[1:], o)
 		case "build":
 			res = execBuild(t[1:], o)
+		case "bseq":
+			res = execBSeq(t[1:], o)
 		case "unpack", "skipall":
 			if len(t) == 2 {
 				if b, ok := vu.ParseHex(t[1]); ok {
@@ -1164,6 +1333,14 @@ func exec(ops []string, o *vu.Out) {
 			key := f[0]
 			if f[0] == "err" && len(f) > 1 {
 				key += "-" + f[1]
+			}
+			if t[0] == "bseq" {
+				key = f[0]
+				for _, x := range f[1:] {
+					if x != "." && !strings.HasPrefix(x, "x") {
+						o.Stat("res:bseq:call-" + x)
+					}
+				}
 			}
 			if f[0] == "ok" && len(f) > 2 && (t[0] == "rt" || t[0] == "build") {
 				key += "-" + f[2]
